@@ -6,6 +6,7 @@ import (
 	"os"
 	"os/exec"
 	"path/filepath"
+	"sort"
 	"strings"
 	"sync"
 	"time"
@@ -36,6 +37,17 @@ func openPlain(dir string) (*comet.PersistentHybridIndex, error) {
 	v, _ := comet.NewFlatIndex(2, comet.Euclidean)
 	cfg.VectorIndexTemplate = v
 	return comet.OpenPersistentHybridIndex(cfg)
+}
+
+// dirNames lists a directory (sorted); used to see that a FAILED open left it as it was.
+func dirNames(dir string) string {
+	ents, _ := os.ReadDir(dir)
+	names := make([]string, 0, len(ents))
+	for _, e := range ents {
+		names = append(names, e.Name())
+	}
+	sort.Strings(names)
+	return strings.Join(names, "|")
 }
 
 func lockExists(dir string) bool {
@@ -133,10 +145,15 @@ func genC17(r *rand.Rand, t *Trace, thorough bool) {
 			case x < 30: // open
 				h := nextH
 				nextH++
+				before := dirNames(dir)
 				st, err := openPlain(dir)
 				code := lockCode(err)
 				if err == nil {
 					handles[h] = st
+				} else if after := dirNames(dir); after != before {
+					// "fails without modifying the directory"
+					ops = append(ops, func(c *Case) { c.N(9).N(h) })
+					t.Stat("lock.failed_open_modified_directory")
 				}
 				la := lockExists(dir)
 				ops = append(ops, func(c *Case) { c.N(1).N(h).N(code).B(la) })
@@ -261,6 +278,7 @@ func genC17(r *rand.Rand, t *Trace, thorough bool) {
 					t.Stat("lock.use_after_close")
 				}
 			case x < 85: // racing opens from 2..8 goroutines
+				beforeRace := dirNames(dir)
 				k := 2 + r.Intn(7)
 				hs := make([]int, k)
 				codes := make([]int, k)
@@ -287,6 +305,14 @@ func genC17(r *rand.Rand, t *Trace, thorough bool) {
 					}
 				}
 				la := lockExists(dir)
+				// the losers fail without modifying the directory: afterwards it holds what it held before,
+				// plus at most the winner's LOCK
+				afterRace := strings.ReplaceAll("|"+dirNames(dir)+"|", "|LOCK|", "|")
+				beforeRaceN := strings.ReplaceAll("|"+beforeRace+"|", "|LOCK|", "|")
+				if strings.Trim(afterRace, "|") != strings.Trim(beforeRaceN, "|") {
+					ops = append(ops, func(c *Case) { c.N(9).N(hs[0]) })
+					t.Stat("lock.failed_open_modified_directory")
+				}
 				ops = append(ops, func(c *Case) { c.N(4).Ints(hs).Ints(codes).B(la) })
 				t.Stat("lock.race")
 			case x < 89: // an open whose directory scan fails after LOCK was created (injected at either scan)
